@@ -24,11 +24,11 @@ type mode struct {
 var modes = map[string]func(){}
 
 var (
-	fSeed = flag.Int64("seed", 1, "PRNG seed")
-	fN    = flag.Int("n", 1000, "number of random cases")
-	fOut  = flag.String("out", ".", "output directory")
-	fTier = flag.String("tier", "quick", "quick|thorough")
-	fIn   = flag.String("in", "", "input file (replay)")
+	fSeed     = flag.Int64("seed", 1, "PRNG seed")
+	fN        = flag.Int("n", 1000, "number of random cases")
+	fOut      = flag.String("out", ".", "output directory")
+	fTier     = flag.String("tier", "quick", "quick|thorough")
+	fIn       = flag.String("in", "", "input file (replay)")
 	fDeadline = flag.Int("deadline", 0, "stop generating new cases after this many seconds (0: never)")
 )
 
